@@ -347,7 +347,18 @@ theorem styledAt_same {st : St} {path src : List Nat} (h : path = src) : styledA
 /-- every operation keeps the links of declaration blocks and properties -/
 theorem dstep_links (ds : DSt) (op : DOp) (hl : DLinks ds) (hs : DOpOK op) : DLinks (dstep ds op).1 := by
   cases op with
-  | sheet op => exact ⟨hl.blockUp, hl.blockOnly, hl.propUp, hl.propOnly, hl.freshB, hl.freshP⟩
+  | sheet op =>
+    have hkeep : ∀ st', DLinks { ds with st := st' } := fun st' =>
+      ⟨hl.blockUp, hl.blockOnly, hl.propUp, hl.propOnly, hl.freshB, hl.freshP⟩
+    cases op with
+    | nSetText path kids =>
+      simp only [dstep]
+      split
+      · split
+        · exact newStyleAt_links _ _ _ (hkeep _)
+        · exact hkeep _
+      · exact hkeep _
+    | _ => exact hkeep _
   | newStyle path items form =>
     simp only [dstep]
     split
@@ -416,7 +427,14 @@ theorem dstep_st (ds : DSt) (op : DOp) (h : ∀ o, op ≠ .sheet o) : (dstep ds 
   | setPropObj path name => simp only [dstep]; split; rfl; split; rfl; split <;> rfl
   | removeProp path name => simp only [dstep]; split; rfl; split <;> rfl
 
-theorem dstep_sheet_st (ds : DSt) (op : Op) : (dstep ds (.sheet op)).1.st = (step ds.st op).1 := rfl
+theorem dstep_sheet_st (ds : DSt) (op : Op) : (dstep ds (.sheet op)).1.st = (step ds.st op).1 := by
+  cases op with
+  | nSetText path kids =>
+    simp only [dstep]
+    split
+    · split <;> rfl
+    · rfl
+  | _ => rfl
 
 /-- what an accepted new block does -/
 theorem newStyleAt_effect (ds : DSt) (rid : Nat) (names : List Cps) (hl : DLinks ds) :
